@@ -6,12 +6,17 @@
 #define VF_STUB_C12A_MM_H_
 #include <stdlib.h>
 #include "mm-internal.h"
-size_t g_mm_last_size;      /* ghost: size of the last successful request */
+/* own position counter inside g_al (already an assigns target of the chain_new contracts) instead of vf.h's vf_nchoice_ */
+#ifdef VF_NATIVE
+#define C12A_CHOOSE() (g_al.nchoice < VF_NCHOICE ? VF_CHOICES[g_al.nchoice++] : 0u)
+#else
+#define C12A_CHOOSE() (g_al.nchoice < VF_NCHOICE ? VF_CHOICES[g_al.nchoice++] : nondet_unsigned())
+#endif
 void *event_mm_malloc_(size_t sz)
 {
 	void *p;
 	if (sz == 0) return NULL;
-	if (VF_CHOOSE() & 1u) { errno = ENOMEM; g_allocfail++; return NULL; }
+	if (C12A_CHOOSE() & 1u) { errno = ENOMEM; g_allocfail++; return NULL; }
 	p = malloc(sz);
 	__CPROVER_assume(p != NULL);
 	g_mm_last_size = sz;
